@@ -2,7 +2,7 @@
    Property theorems only: each is closed by `exact <lemma>`; Print Assumptions must report a closed term. *)
 From Coq Require Import List Bool Arith.
 Import ListNotations.
-Require Import PonyV.Model.C03Bexp PonyV.Proofs.C03Checker PonyV.Model.C03Decomp PonyV.Model.C03Family PonyV.Proofs.C03Roundtrip.
+Require Import PonyV.Model.C03Bexp PonyV.Proofs.C03Checker PonyV.Model.C03Decomp PonyV.Model.C03Family PonyV.Proofs.C03Roundtrip PonyV.Proofs.C03RoundtripCnf PonyV.Proofs.C03CompileSound.
 
 (* The oracle the harness uses to judge every output of the real decompiler: if the truth-table checker accepts a pair
    of expressions (any number of atoms), they have the same VALUE under every assignment of their free names ... *)
@@ -35,7 +35,7 @@ Print Assumptions C03_checker_truth_complete.
 
    It is FALSE: Findings/C03.v, C03_refuted_filter_wrong_And_Or
    (`a and ((b or c and d) and e or g)` comes back as `(a and (b or c and d) and e) or g`); the real decompiler behaves the
-   same way (known finding filter:wrong:And+Or).  What is proved is the unbounded sub-family below; what is missing for a
+   same way (known finding filter:wrong:And+Or).  What is proved are the two unbounded sub-families below; what is missing for a
    theorem on the complement of the refuted inputs is a characterisation of the nestings on which analyze_jumps'
    "an or-jump strictly between" test classifies every jump correctly (alternating and/or nesting of depth >= 3 under an
    outer `and` is where it fails) - not attempted.
@@ -53,6 +53,21 @@ Theorem C03_andor_partial_meaning : forall alts, wf_alts alts ->
 Proof. exact roundtrip_dnf_meaning. Qed.
 Print Assumptions C03_andor_partial_meaning.
 
+(* ... and the dual family: every `and` of `or`s of literals, any number of clauses, any widths *)
+Theorem C03_andor_partial_cnf : forall cls, wf_alts cls -> decompile PFilter (cnf cls) = Some (cnf cls).
+Proof. exact roundtrip_cnf. Qed.
+Print Assumptions C03_andor_partial_cnf.
+
+Theorem C03_andor_partial_cnf_meaning : forall cls, wf_alts cls ->
+  exists e', decompile PFilter (cnf cls) = Some e' /\ forall rho, eval rho e' = eval rho (cnf cls).
+Proof. exact roundtrip_cnf_meaning. Qed.
+Print Assumptions C03_andor_partial_cnf_meaning.
+
+Example C03_andor_partial_cnf_nonvacuous :
+  cnf [[Lit false 0; Lit true 1]; [Lit false 2]; [Lit true 3; Lit false 4; Lit false 5]] =
+    And [Or [Atom 0; Not (Atom 1)]; Atom 2; Or [Not (Atom 3); Atom 4; Atom 5]].
+Proof. reflexivity. Qed.
+
 (* non-vacuity: `a and not b or c or not d and e and g` is in the family, and its stream has 12 instructions + 2 *)
 Example C03_andor_partial_nonvacuous :
   wf_alts [[Lit false 0; Lit true 1]; [Lit false 2]; [Lit true 3; Lit false 4; Lit false 5]] /\
@@ -60,3 +75,17 @@ Example C03_andor_partial_nonvacuous :
     Or [And [Atom 0; Not (Atom 1)]; Atom 2; And [Not (Atom 3); Atom 4; Atom 5]] /\
   length (compile PFilter (dnf [[Lit false 0; Lit true 1]; [Lit false 2]; [Lit true 3; Lit false 4; Lit false 5]])) = 14.
 Proof. split; [split; [discriminate | repeat constructor; discriminate] | split; reflexivity]. Qed.
+
+(* ------------------------------------------------------------------------------------------------------------------
+   Sanity of the code-generation model (the model of CPython, which is otherwise only compared with `dis`): executing the
+   compiled stream gives the meaning of the source - the truth value decides between yielding and skipping the element
+   at the three filter positions, the value is what is yielded / returned at the element and lambda positions - for every
+   expression over names, constants, not, and, or, ==, !=, is (not) None of any nesting (`simple`: no conditional
+   expression, whose JUMP_FORWARDs go through jump threading - that part is only checked by vm_compute on every run). *)
+Theorem C03_compile_sound : forall ps e rho, simple e = true -> run_code rho (compile ps e) = meaning ps rho e.
+Proof. exact compile_sound_simple. Qed.
+Print Assumptions C03_compile_sound.
+
+Example C03_compile_sound_nonvacuous :
+  simple (Or [And [Atom 0; Not (Cmp false (Atom 1) (And [Atom 2; Const VNone]))]; IsNone true (Atom 3)]) = true.
+Proof. reflexivity. Qed.
